@@ -1390,6 +1390,22 @@ def blank_predicates(ctx, key):
     tabulated over all 256 byte values (no code is run).  A predicate that does not accept ' ' (a newline test, a '#' test ...) is not a blank test."""
     out = []
     keys = [key] + [k for k in ctx.fx.fns if k.startswith(key + "::{closure#")]
+    # ... and the helper functions the item delegates to (functions that are not part of the analysed tree's known items), with their closures
+    inl = getattr(ctx, "inline_set", None) or frozenset()
+    frontier = [key]
+    for _ in range(2):
+        nxt_ = []
+        for k in frontier:
+            b_ = ctx.body(k)
+            if b_ is None:
+                continue
+            for _bb, tt in b_.calls():
+                hp = tt["func"]["path"]
+                if tt["func"]["local"] and hp in inl and hp not in keys and ctx.fx.fns.get(hp, {}).get("kind") != "Closure":
+                    keys.append(hp)
+                    keys.extend(k2 for k2 in ctx.fx.fns if k2.startswith(hp + "::{closure#"))
+                    nxt_.append(hp)
+        frontier = nxt_
     for k in keys:
         ps = ctx.paths(k)
         if not ps:
